@@ -4,7 +4,7 @@
    Model = otto's builtin_string.go over Go strings with its byte / rune / unit conversions (C09/Model.v);
    the correspondence run ties Model to the interpreter built from /repo on every check. *)
 From Coq Require Import ZArith List Bool.
-From Otto Require Import Common.Double C09.Utf C09.Spec C09.Model C09.Proofs.
+From Otto Require Import Common.Double C09.Utf C09.Spec C09.Model C09.Proofs C09.Corr.
 Import ListNotations.
 Open Scope Z_scope.
 
@@ -260,6 +260,43 @@ Theorem C09_index_name_refuted :         (* "abc"["01"] is "b", not undefined *)
 Proof. exists [97; 98; 99], [48; 49]. vm_compute. split; reflexivity. Qed.
 Print Assumptions C09_index_name_refuted.
 
+(* ---------- order of argument conversions ---------- *)
+
+(* otto converts the arguments in the ES5 step order for every method except the two early
+   returns refuted below; every argument list, every mix of primitive and effectful arguments *)
+Theorem C09_conversion_order : forall m this eargs, m <> MSplit -> m <> MLastIndexOf ->
+  plan_model m this eargs = plan_spec m eargs.
+Proof. intros m this eargs H1 H2. destruct m; try reflexivity; congruence. Qed.
+Print Assumptions C09_conversion_order.
+
+Theorem C09_lastIndexOf_order : forall this eargs, this <> [] ->
+  plan_model MLastIndexOf this eargs =
+  (0%nat, KS) :: (if (length eargs <? 2)%nat || e_undef (earg_at eargs 1) then [] else [(1%nat, KN)]).
+Proof. intros this eargs H. destruct this; [congruence|]. cbn [plan_model is_nil]. now rewrite Bool.orb_false_r. Qed.
+Print Assumptions C09_lastIndexOf_order.
+
+Theorem C09_split_skips_separator_refuted :   (* "a,b".split(sepObject, 0): separator.toString not called *)
+  exists st, model_step st = Some (VList [], []) /\ spec_step st = Some (VList [], [2]).
+Proof.
+  exists (Some MSplit, ERLit [97; 44; 98], [EObj 1 [44] 0 false false; EPlain (ANum 0)]).
+  vm_compute. split; reflexivity.
+Qed.
+Print Assumptions C09_split_skips_separator_refuted.
+
+Theorem C09_lastIndexOf_skips_position_refuted :   (* "".lastIndexOf("c", posObject): posObject.valueOf not called *)
+  exists st, model_step st = Some (VInt (-1), []) /\ spec_step st = Some (VInt (-1), [5]).
+Proof.
+  exists (Some MLastIndexOf, ERLit [], [EPlain (AStr [99]); EObj 2 [120] (encode_int_or_nan 3) false false]).
+  vm_compute. split; reflexivity.
+Qed.
+Print Assumptions C09_lastIndexOf_skips_position_refuted.
+
+Theorem C09_prototype_tostring_refuted :   (* String.prototype.toString = () => "zzz"; "aaa".indexOf("a") *)
+  exists x s t, call_model MIndexOf (patch_model MIndexOf (RLit s) x) [AStr t] = Some (VInt (-1)) /\
+                call_spec MIndexOf (patch_spec (RLit s) x) [AStr t] = Some (VInt 0).
+Proof. exists [122; 122; 122], [97; 97; 97], [97]. vm_compute. split; reflexivity. Qed.
+Print Assumptions C09_prototype_tostring_refuted.
+
 (* ---------- non-vacuity: the hypotheses above are met by concrete values ---------- *)
 Example C09_ascii_hyp_met : ascii [97; 98; 99] /\ bmp_clean [233; 26085; 97] /\ ~ In 0xFFFD [233; 26085; 97] /\ zlen [233; 26085; 97] < 2 ^ 62.
 Proof.
@@ -277,6 +314,9 @@ Example C09_split_join_hyp_met : zlen [97; 44; 98] + 1 < 2 ^ 32 - 1 /\
 Proof. vm_compute. repeat split. Qed.
 Example C09_slice_hyp_met : 0 <= 1 <= 2 /\ slice [97; 98; 99] (Fin 1) (Some (Fin 2)) = [98].
 Proof. vm_compute. repeat split; discriminate. Qed.
+Example C09_order_hyp_met : MIndexOf <> MSplit /\ MIndexOf <> MLastIndexOf /\
+  plan_spec MIndexOf [EPlain AUndef; EPlain AUndef] = [(0%nat, KS); (1%nat, KN)] /\ [97] <> (@nil Z).
+Proof. repeat split; discriminate. Qed.
 Example C09_receiver_hyp_met : RNumR 5 <> RUndef /\ (MTrim = MSubstr -> RNumR 5 <> RNull) /\
   this_gostring MTrim (RNumR 5) = Some [53].
 Proof. repeat split; try discriminate. Qed.
